@@ -44,8 +44,8 @@ func (h H) String() string { return Hex8(h) }
 // logging never looks like a race between tasks; merged by sequence number
 // after the join.
 type Log struct {
-	run   *Run
-	task  int
+	run     *Run
+	task    int
 	ev      []event
 	fails   []Violation
 	failEv  []uint64
